@@ -1,5 +1,5 @@
 #!/bin/bash
-# usage: confirm_rerun.sh <worktree>: re-runs (two at a time) the baseline tests that did not pass
+# usage: confirm_rerun.sh <worktree>: re-runs (one at a time) the baseline tests that did not pass
 # in the confirm_seed.sh run of that worktree (the DAP integration tests time out under load).
 WT=$1
 M=$WT/target/nextest/pb/junit.xml.missing
@@ -7,5 +7,5 @@ M=$WT/target/nextest/pb/junit.xml.missing
 cd $WT || exit 2
 export CARGO_NET_OFFLINE=true
 EXPR=$(sed 's/.*:://; s/.*/test(\/&$\/)/' $M | paste -sd'|')
-OUT=$(cargo nextest run --workspace --offline --test-threads 2 -E "$EXPR" 2>&1 | tail -n 3)
-echo "   re-run of $(wc -l < $M | tr -d ' ')+1 tests that did not pass, two at a time: $(echo $OUT | tr '\n' ' ')"
+OUT=$(cargo nextest run --workspace --offline --no-fail-fast --test-threads 1 -E "$EXPR" 2>&1 | tail -n 3)
+echo "   re-run of $(wc -l < $M | tr -d ' ')+1 tests that did not pass, one at a time: $(echo $OUT | tr '\n' ' ')"
